@@ -133,7 +133,7 @@ def doc_format(e):
 class Check(common.Check):
     PROP = 'C19'
     LEAN_TARGETS = ['Sc3Verif.C19.Props']
-    LEAN_DIRS = ['Sc3Verif/C19']
+    LEAN_DIRS = ['Sc3Verif/C19', 'Sc3Verif/C15']
     THEOREMS = ['Sc3Verif.C19.' + t for t in (
         'shape_numbers_match_server', 'shape_number_cases', 'format_layout', 'times_curves_wrapped',
         'ctor_breakpoints_triangle', 'ctor_breakpoints_sine', 'ctor_breakpoints_perc', 'ctor_breakpoints_linen',
